@@ -23,6 +23,13 @@ def programs(ctx):
         text = ("#[derive_ex::derive_ex(DerefMut)]\n%s\nimpl%s core::ops::Deref for X%s { type Target = %s; fn deref(&self) -> &%s { &self.%s } }\n"
                 "pub fn replay(_h: &str, _b: &[u8]) -> (bool, String) { (true, String::new()) }\n" % (decl, g, gi, tgt, tgt, fld))
         out.append(E.Prog("p_n%02d" % j, text, [], {"describe": "derive_ex(DerefMut) %s + hand-written Deref<Target = %s>  [must be refused]" % (decl, tgt)}, expect_compile=False))
+    # unsized single field written as a bare trait object: no value can be built, but the impls must type-check with Target == the field type
+    for j, decl in enumerate(["pub struct X(pub dyn core::fmt::Debug);", "pub struct X<'a>(pub dyn core::fmt::Debug + Send + 'a);", "pub struct X { pub a: dyn core::fmt::Debug + Send }", "pub struct X(pub [u8]);"]):
+        fty = decl[decl.index("pub ", 5) + 4:].rstrip(";)} ").split(": ", 1)[-1]
+        text = ("#[derive_ex::derive_ex(Deref, DerefMut)]\n%s\npub trait SameTy3<B: ?Sized> {} impl<A_: ?Sized> SameTy3<A_> for A_ {}\n"
+                "pub fn target_is_field_type<'a>() where <X%s as core::ops::Deref>::Target: SameTy3<%s> {}\n"
+                "pub fn replay(_h: &str, _b: &[u8]) -> (bool, String) { (true, String::new()) }\n" % (decl, "<'a>" if "<'a>" in decl else "", fty))
+        out.append(E.Prog("p_u%02d" % j, text, [], {"describe": "derive_ex(Deref, DerefMut) %s  [unsized field: compile obligation, Target == %s]" % (decl, fty)}))
     return out
 
 
